@@ -12,9 +12,9 @@ RULE = (
     "edges over shared vertices, Graph.calc_chi2 vs the sum of reference chi2. Non-trivial = information non-diagonal or ill-conditioned "
     "(cond >= 1e4), or an operand outside the suite box [0,1)^k."
 )
-BUDGET = {"quick": 16 * 2500, "thorough": 16 * 50000}
+BUDGET = {"quick": 16 * 5000, "thorough": 16 * 50000}
 TOLERANCES = {
-    "error": "1e-10*(1+S) translation rows, 1e-10 rotation rows; SE2 angle mod 2pi; SE3 rotational part up to one global sign (C08's subject)",
+    "error": "1e-10*(1+S) translation rows, 1e-10 rotation rows; SE2 angle mod 2pi; SE3 rotational part = vector part of the error quaternion with w >= 0 (either sign accepted only within 1e-6 of a 180-degree residual)",
     "chi2": "1e-9*A + 2*sum_ij |Omega_ij| |e_i| tol_e_j, A = sum_ij |e_i||Omega_ij||e_j|",
 }
 ASSUMPTIONS = ["reference model trusted after self-test", "information matrices are symmetric (generator symmetrises exactly)"]
@@ -39,6 +39,9 @@ def strategy_(g):
         dv = g.unit_axis()[: R.PDIM[kz]]
         nn = float(np.linalg.norm(dv)) or 1.0
         case["disp"] = [mag * x / nn for x in dv]
+        # a second state of the same edge object: the error must follow the current vertex poses
+        case["p1b"] = g.pose(k0, s=g.choice([1.0, 10.0]))
+        case["p2b"] = g.pose(k1, s=g.choice([1.0, 10.0]))
         return case
     # small graph
     k = g.kind()
@@ -58,7 +61,9 @@ def strategy_(g):
         else:
             i, j = rnd.sample(range(npose), 2)
             edges.append({"t": "odo", "i": i, "j": j, "z": g.pose(k, s=s), "off": None, "info": g.sym_matrix(R.CDIM[k], kind=g.choice(INFO_KINDS))})
-    return {"shape": "graph", "k": k, "poses": poses, "lms": lms, "edges": edges, "ids": g.ids(npose + nlm)}
+    poses_b = [g.pose(k, s=s) for _ in range(npose)]
+    lms_b = [g.pose(pk, s=s) for _ in range(nlm)]
+    return {"shape": "graph", "k": k, "poses": poses, "lms": lms, "edges": edges, "ids": g.ids(npose + nlm), "poses_b": poses_b, "lms_b": lms_b}
 
 
 def strategy(tier):
@@ -87,12 +92,14 @@ def _chi2_tol(e, om, tol_e):
     return 1e-9 * A + prop + 1e-300
 
 
-def _aligned_ref_error(ek, e_code, e_ref):
-    """Reference error with the SE2 angle brought to the code's branch and the SE3 rotation sign to the code's sign."""
+def _aligned_ref_error(ek, e_code, e_ref, w_err=None):
+    """Reference error with the SE2 angle brought to the code's branch.  The SE3 rotational part is the vector part of
+    the error quaternion with non-negative scalar part (the documented model since the repair of F2); only within 1e-6
+    of a 180-degree residual (|w| < 1e-6), where that sign is decided by rounding, both signs are accepted."""
     ev = np.array(e_ref, dtype=float)
     if ek == "odo:se2":
         ev[2] = e_code[2] + R.wrap(ev[2] - e_code[2])
-    if ek == "odo:se3":
+    if ek == "odo:se3" and (w_err is None or abs(w_err) < 1e-6):
         if float(np.dot(e_code[3:], ev[3:])) < 0:
             ev[3:] = -ev[3:]
     return ev
@@ -110,7 +117,12 @@ def _check_edge_model(ctx, ek, edge, S_, label=""):
         # the reported angular error must itself be a wrapped angle
         if not (-np.pi - 1e-12 <= e_code[2] <= np.pi + 1e-12):
             return ctx.fail("error-angle-range", "SE2 angular error %r outside [-pi,pi]" % e_code[2]), None, None
-    ev = _aligned_ref_error(ek, e_code, e_ref)
+    w_err = None
+    if ek == "odo:se3":
+        w_err = float(R.val(R.ominus("se3", rz, R.ominus("se3", rp2, rp1))[6]))
+        if abs(w_err) < 1e-6:
+            ctx.event("180deg-residual:sign-ambiguous")
+    ev = _aligned_ref_error(ek, e_code, e_ref, w_err)
     tol_e = E.tol_rows(ek, S_, 1e-10)
     if ctx.check_close("error-vs-reference", "calc_error" + label, e_code, ev, tol_e, "edge %s" % ek):
         return True, None, None
@@ -230,6 +242,15 @@ def check(case, ctx):
             return ctx.fail("chi2-not-positive-for-inconsistent-measurement", "chi2=%r < lambda_min*|d|^2/2=%r" % (chid, lower))
     edge.estimate = gs.mk_pose(case["z"])
 
+    # ---- history: move the vertices; error and chi2 must be those of the new state (no stale cache)
+    if "p1b" in case:
+        v1.pose = gs.mk_pose(case["p1b"])
+        v2.pose = gs.mk_pose(case["p2b"])
+        Sb = max(S_, gs.max_trans(case["p1b"], case["p2b"]))
+        failed, _, _ = _check_edge_model(ctx, ek, edge, Sb, " (after moving the vertices)")
+        if failed:
+            return
+
 
 def _check_graph(case, ctx):
     k = case["k"]
@@ -272,3 +293,19 @@ def _check_graph(case, ctx):
     A = sum(abs(float(e.calc_chi2())) for e in g._edges)
     if not (abs(chi_g - own_sum) <= 1e-12 * A + 1e-300):
         return ctx.fail("graph-chi2-vs-own-edge-sum", "Graph.calc_chi2=%r, sum of its edges' calc_chi2=%r" % (chi_g, own_sum))
+    # history: a second state of the same graph object (vertices moved) must give the chi2 of that state
+    if case.get("poses_b"):
+        for v, p in zip(g._vertices, case["poses_b"] + case["lms_b"]):
+            v.pose = gs.mk_pose(p)
+        Sb = max(S_, gs.max_trans(*(case["poses_b"] + case["lms_b"])))
+        total = 0.0
+        tol_total = 0.0
+        for ek, edge in zip(eks, g._edges):
+            failed, chi_ref, tol = _check_edge_model(ctx, ek, edge, Sb, " (in graph, second state)")
+            if failed:
+                return
+            total += chi_ref
+            tol_total += tol + 1e-12 * abs(chi_ref)
+        chi_g = float(g.calc_chi2())
+        if not (abs(chi_g - total) <= tol_total + 1e-300):
+            return ctx.fail("graph-chi2-vs-reference-sum", "after moving the vertices: Graph.calc_chi2=%r, sum of reference edge chi2=%r (tol %.3e)" % (chi_g, total, tol_total))
